@@ -56,6 +56,7 @@ void genBasic(Prng& r, Plan& p, int)
 	int n = 1 + (int)r.below(3);
 	p.p["join_reverse"] = r.below(2);
 	p.p["second_wave"] = r.below(4) == 0 ? 1 + r.below(3) : 0;
+	p.p["assign"] = r.below(3) == 0;
 	for (int i = 0; i < n; i++)
 	{
 		int kind = (int)r.below(2); // 0 subclass, 1 lambda
@@ -74,6 +75,17 @@ void runBasic(const Plan& p)
 		n = 6;
 	std::vector<Cell> cells(n);
 	std::vector<asl::Thread*> thr(n, nullptr);
+	std::vector<asl::Thread*> sources; // assigned-from objects (see below)
+	struct FreeSources
+	{
+		std::vector<asl::Thread*>& v;
+		~FreeSources()
+		{
+			for (auto* t : v)
+				delete t;
+		}
+	} freeSources{sources};
+	const bool assigned = p.get("assign") != 0;
 	std::vector<int> kinds(n, 0);
 	size_t i = 0;
 	bool empties = false;
@@ -96,12 +108,25 @@ void runBasic(const Plan& p)
 		}
 		else
 		{
-			thr[i] = new asl::Thread([c, b]() {
+			auto fn = [c, b]() {
 				c->runs = c->runs + 1;
 				b();
 				c->value = 0x5a5a;
 				c->done = 1;
-			});
+			};
+			if (p.get("assign"))
+			{
+				// the handle reaches its final object by assignment ("copying a Thread transfers the handle"): the running
+				// thread now belongs to the assigned-to object. The source object is kept alive until the end of the run:
+				// the unchanged library lets the running thread write its finished flag into the *source* object (known
+				// finding, DESIGN section 9), and a destroyed source would turn that write into memory corruption of the harness.
+				asl::Thread* src = new asl::Thread(fn);
+				sources.push_back(src);
+				thr[i] = new asl::Thread();
+				*thr[i] = *src;
+			}
+			else
+				thr[i] = new asl::Thread(fn);
 		}
 		i++;
 	}
@@ -112,7 +137,7 @@ void runBasic(const Plan& p)
 	{
 		size_t j = rev ? n - 1 - q : q;
 		thr[j]->join();
-		const char* kn = kinds[j] ? "lambda" : "subclass";
+		const char* kn = kinds[j] ? (assigned ? "lambda;assigned" : "lambda") : "subclass";
 		{
 			sim::NoSched ns;
 			if (cells[j].runs != 1)
@@ -164,7 +189,7 @@ void runBasic(const Plan& p)
 		{
 			sim::NoSched ns;
 			if (!thr[j]->finished())
-				sim::fail("finished_false_after_join", kinds[j] ? "lambda;later" : "subclass;later", "thread %zu: finished() turned false later", j);
+				sim::fail("finished_false_after_join", kinds[j] ? (assigned ? "lambda;assigned;later" : "lambda;later") : "subclass;later", "thread %zu: finished() turned false later", j);
 			if (cells[j].runs != 1)
 				sim::fail("exactly_once", kinds[j] ? "lambda" : "subclass", "thread %zu: run count %d at the end", j, cells[j].runs);
 		}
